@@ -109,7 +109,7 @@ func ownFreshSlices(fn *ssa.Function, fr *Frame) func(ssa.Value) bool {
 	}
 	rule := func(v ssa.Value) bool {
 		switch v := v.(type) {
-		case *ssa.MakeSlice:
+		case *ssa.MakeSlice, *ssa.MakeMap:
 			return true
 		case *ssa.Slice:
 			if _, isSl := types.Unalias(v.X.Type()).Underlying().(*types.Slice); isSl {
@@ -128,7 +128,9 @@ func ownFreshSlices(fn *ssa.Function, fr *Frame) func(ssa.Value) bool {
 			}
 		case *ssa.UnOp:
 			if a, isA := v.X.(*ssa.Alloc); isA && v.Op == token.MUL && fr.isCell[a] {
-				if _, isSl := types.Unalias(deref(a.Type())).Underlying().(*types.Slice); isSl {
+				_, isSl := types.Unalias(deref(a.Type())).Underlying().(*types.Slice)
+				_, isMp := types.Unalias(deref(a.Type())).Underlying().(*types.Map)
+				if isSl || isMp {
 					for _, sv := range stores[a] {
 						if !get(sv) {
 							return false
@@ -144,7 +146,9 @@ func ownFreshSlices(fn *ssa.Function, fr *Frame) func(ssa.Value) bool {
 	for _, b := range fn.Blocks {
 		for _, in := range b.Instrs {
 			if v, isV := in.(ssa.Value); isV {
-				if _, isSl := types.Unalias(v.Type()).Underlying().(*types.Slice); isSl {
+				_, isSl := types.Unalias(v.Type()).Underlying().(*types.Slice)
+				_, isMp := types.Unalias(v.Type()).Underlying().(*types.Map)
+				if isSl || isMp {
 					cands = append(cands, v)
 					state[v] = true
 				}
@@ -277,7 +281,7 @@ func (p *Program) direct(fn *ssa.Function) *directInfo {
 			case *ssa.MapUpdate:
 				if mt, ok := types.Unalias(in.Map.Type()).Underlying().(*types.Map); ok {
 					dn, vn := p.heapMapNames(mt)
-					if _, isNew := in.Map.(*ssa.MakeMap); isNew {
+					if _, isNew := in.Map.(*ssa.MakeMap); isNew || d.ownFresh(in.Map) {
 						addFresh([]string{dn, vn})
 					} else {
 						add([]string{dn, vn})
